@@ -76,6 +76,8 @@ def dispatch (line : String) : String :=
     | "jaccept" => JCodecDrv.acceptLine payload
     | "bmerge" => BoundM.mergeLine payload
     | "cmerge" => BoundM.countLine payload
+    | "emerge" => BoundM.enumLine payload
+    | "pmerge" => BoundM.propsLine payload
     | "durfmt" => DurT.fmtLine payload
     | "durval" => DurT.valLine payload
     | "docsplit" => DocLines.splitLineLine payload
